@@ -118,8 +118,8 @@ func readHeader(reader io.ReaderAt) (map[[2]byte]uint64, map[string]string, int6
 		return nil, nil, 0, fmt.Errorf("failed to read header size: %w", err)
 	}
 	// read header bytes:
-	headerBuf := make([]byte, headerSize)
-	if _, err := reader.ReadAt(headerBuf, 4); err != nil {
+	headerBuf, err := readBytesAt(reader, 4, headerSize)
+	if err != nil {
 		return nil, nil, 0, fmt.Errorf("failed to read header bytes: %w", err)
 	}
 	// decode header:
@@ -152,7 +152,8 @@ func readHeader(reader io.ReaderAt) (map[[2]byte]uint64, map[string]string, int6
 		if err != nil {
 			return nil, nil, 0, fmt.Errorf("failed to read numMeta: %w", err)
 		}
-		meta := make(map[string]string, numMeta)
+		// numMeta comes from the file: it is not used as a size hint.
+		meta := make(map[string]string)
 		for i := uint64(0); i < numMeta; i++ {
 			key, err := decoder.ReadString()
 			if err != nil {
@@ -171,7 +172,12 @@ func readHeader(reader io.ReaderAt) (map[[2]byte]uint64, map[string]string, int6
 		return nil, nil, 0, fmt.Errorf("failed to read numPrefixes: %w", err)
 	}
 	// prefix -> offset:
-	prefixToOffset := make(map[[2]byte]uint64, numPrefixes)
+	// numPrefixes comes from the file; there are at most 65536 distinct 2-byte prefixes.
+	sizeHint := numPrefixes
+	if sizeHint > 1<<16 {
+		sizeHint = 1 << 16
+	}
+	prefixToOffset := make(map[[2]byte]uint64, sizeHint)
 	for i := uint64(0); i < numPrefixes; i++ {
 		var prefix [2]byte
 		_, err := decoder.Read(prefix[:])
@@ -185,6 +191,42 @@ func readHeader(reader io.ReaderAt) (map[[2]byte]uint64, map[string]string, int6
 		prefixToOffset[prefix] = offset
 	}
 	return prefixToOffset, nil, headerSize + 4, err
+}
+
+// readBytesAt reads `total` bytes of the reader starting at `off`.
+//
+// `total` comes from a length field of the file. The buffer therefore starts small and is
+// doubled only after everything read so far was actually delivered by the reader, so that a
+// corrupt length field cannot make the reader allocate more than about twice the bytes the
+// file holds (instead of up to 4 GiB up front).
+func readBytesAt(reader io.ReaderAt, off int64, total int64) ([]byte, error) {
+	const firstChunk = 1 << 20
+	size := total
+	if size > firstChunk {
+		size = firstChunk
+	}
+	buf := make([]byte, size)
+	filled := 0
+	for {
+		n, err := reader.ReadAt(buf[filled:], off+int64(filled))
+		filled += n
+		if filled < len(buf) {
+			if err == nil {
+				err = io.ErrUnexpectedEOF
+			}
+			return nil, err
+		}
+		if int64(filled) == total {
+			return buf, nil
+		}
+		size = 2 * int64(len(buf))
+		if size > total {
+			size = total
+		}
+		grown := make([]byte, size)
+		copy(grown, buf)
+		buf = grown
+	}
 }
 
 func (r *Reader) Has(sig [64]byte) (bool, error) {
